@@ -48,7 +48,7 @@ Definition simple_key_body : parser bytes :=
   if byte_eqb b QUOTATION_MARK then basic_string
   else if byte_eqb b APOSTROPHE then literal_string
   else unquoted_key.
-Lemma simple_key_eq : simple_key = pmap (fun '(k, sp) => (raw_with_span sp, k)) (with_span simple_key_body).
+Lemma simple_key_eq : simple_key = pmap (fun '(k, sp) => (raw_with_span sp, k)) (with_span (context simple_key_body)).
 Proof. reflexivity. Qed.
 Lemma simple_key_body_mono : mono simple_key_body. Proof. unfold simple_key_body. np. Qed.
 Lemma simple_key_body_progress : progress simple_key_body. Proof. unfold simple_key_body. np. Qed.
@@ -59,7 +59,7 @@ Lemma simple_key_exact i r k i' :
   r = RSpanned (pos i) (pos i') /\ (pos i < pos i')%N /\ simple_key_body i = Ok k i'.
 Proof.
   rewrite simple_key_eq. intro E. apply pmap_ok in E as ([k0 sp] & E & X). inversion X; subst r k0.
-  apply with_span_ok in E as (S & E). cbn [fst snd] in *. subst sp.
+  apply with_span_ok in E as (S & E). cbn [fst snd] in *. subst sp. apply context_ok in E.
   pose proof (simple_key_body_progress _ _ _ E) as G. pose proof (simple_key_body_mono _ _ _ E) as M.
   assert (P : (pos i < pos i')%N).
   { destruct M as (t & R & P & _). rewrite R, app_length in G. lia. }
